@@ -123,6 +123,11 @@ def ls(v):
     return "" if v is None else lit_int(v)
 
 
+def bigrep(i):
+    """the integer i held in big representation (arithmetic never re-normalises): an index is a value, not a representation"""
+    return "((2^70+%d)-2^70)" % i if i >= 0 else "((2^70-%d)-2^70)" % (-i)
+
+
 def cases(tier, shard, nshards):
     maxn = 3 if tier == "tiny" else 5
     cnt = 0
@@ -144,6 +149,16 @@ def cases(tier, shard, nshards):
                     forms.append(("cyclic", "%s !%% %s" % (src, lit_int(i))))
                 for f, prog in forms:
                     yield Case(prog, dict(base, op=f, i=str(i)))
+                if abs(i) <= L + 3:
+                    bi = bigrep(i)
+                    forms = [("idx", "%s[%s]" % (src, bi)), ("bangbang", "%s !! %s" % (src, bi)), ("section", "_[%s](%s)" % (bi, src))]
+                    if not is_stream(kind):
+                        forms += [("safe", "%s !? %s" % (src, bi)), ("cyclic", "%s !%% %s" % (src, bi))]
+                    for f, prog in forms:
+                        yield Case(prog, dict(base, op=f, i=str(i), rep="big"))
+                    yield Case("%s[%s:]" % (src, bi), dict(base, op="slice", a=str(i), b=None, rep="big"))
+                    yield Case("%s[:%s]" % (src, bi), dict(base, op="slice", a=None, b=str(i), rep="big"))
+                    yield Case("%s[%s:%s]" % (src, bigrep(0), bi), dict(base, op="slice", a="0", b=str(i), rep="big"))
             for t in NONINT:
                 yield Case("%s[%s]" % (src, t), dict(base, op="idx_nonint", i=t))
                 yield Case("%s[%s:]" % (src, t), dict(base, op="slice_nonint", i=t))
@@ -163,6 +178,8 @@ def cases(tier, shard, nshards):
             for k in window:
                 yield Case("%s take %s" % (src, lit_int(k)), dict(base, op="take", i=str(k)))
                 yield Case("%s drop %s" % (src, lit_int(k)), dict(base, op="drop", i=str(k)))
+                yield Case("%s take %s" % (src, bigrep(k)), dict(base, op="take", i=str(k), rep="big"))
+                yield Case("%s drop %s" % (src, bigrep(k)), dict(base, op="drop", i=str(k), rep="big"))
             # ---- writes
             if kind in ("list", "astr", "ustr", "vector", "bytes", "range", "wstream"):
                 new = '"z"' if is_str(kind) else "99"
@@ -172,6 +189,13 @@ def cases(tier, shard, nshards):
                         yield Case("x := %s; x{%s = %s}" % (src, lit_int(i), new), dict(base, op="update", i=str(i)))
                         yield Case("x := %s; y := remove x[%s]; [x, y]" % (src, lit_int(i)), dict(base, op="remove", i=str(i)))
                         yield Case("%s |.. [%s, %s]" % (src, lit_int(i), new), dict(base, op="replace_at", i=str(i)))
+                    if abs(i) <= L + 3:
+                        bi = bigrep(i)
+                        yield Case("x := %s; x[%s] = %s; x" % (src, bi, new), dict(base, op="assign", i=str(i), rep="big"))
+                        if kind == "list":
+                            yield Case("x := %s; x{%s = %s}" % (src, bi, new), dict(base, op="update", i=str(i), rep="big"))
+                            yield Case("x := %s; y := remove x[%s]; [x, y]" % (src, bi), dict(base, op="remove", i=str(i), rep="big"))
+                            yield Case("%s |.. [%s, %s]" % (src, bi, new), dict(base, op="replace_at", i=str(i), rep="big"))
                 if kind == "list":
                     yield Case("x := %s; y := pop x; [x, y]" % src, dict(base, op="pop"))
                     for a in [None] + window:
@@ -305,7 +329,7 @@ def judge(case, rs):
     st = r.get("st")
     exp = expect(m)
     src = case.steps[0]
-    sig = "C10 op=%s kind=%s%s" % (m["op"], m["kind"], iclass(m))
+    sig = "C10 op=%s kind=%s%s%s" % (m["op"], m["kind"], iclass(m), " rep=big" if m.get("rep") == "big" else "")
     if exp is None:
         return []
     if exp == RAISE:
